@@ -108,6 +108,17 @@ def grammar() -> Grammar:
         A("order_by_unselected", 1, "SELECT a FROM x ORDER BY b"),
         A("group_expr", 1, "SELECT a + b AS s, COUNT(*) AS n FROM x GROUP BY a + b"),
         A("distinct_on", 1, "SELECT DISTINCT ON (b) a, b FROM x ORDER BY b, a"),
+        # the same expression / column referenced more than once where qualify substitutes a shared replacement
+        A("order_dup_expr", 1, "SELECT a + 1 AS k FROM x GROUP BY a + 1 ORDER BY a + 1, a + 1 DESC"),
+        A("order_dup_alias", 1, "SELECT a AS k, b FROM x ORDER BY k, k DESC, b"),
+        A("group_dup_expr", 1, "SELECT a + 1 AS k, COUNT(*) AS n FROM x GROUP BY a + 1, a + 1 HAVING a + 1 > 0 AND a + 1 < 99"),
+        A("using_twice_where", 1, "SELECT x.a FROM x JOIN y USING (b) WHERE b > 1 AND b < 99"),
+        A("using_where_order", 1, "SELECT x.a FROM x JOIN y USING (b) WHERE b > 1 ORDER BY b, b + 1"),
+        A("using_in_exprs", 1, "SELECT b + b AS k, b AS b2 FROM x JOIN y USING (b) GROUP BY b HAVING b > 0"),
+        A("star_replace_join", 1, "SELECT * REPLACE (1 AS b) FROM x CROSS JOIN y"),
+        A("star_exclude_join", 1, "SELECT * EXCLUDE (b) FROM x CROSS JOIN y"),
+        A("star_replace_using", 1, "SELECT * REPLACE (b + 1 AS b) FROM x JOIN y USING (b)"),
+        A("tstar_twice", 1, "SELECT x.*, x.* FROM x"),
     ]
     # NATURAL / USING chains; `w` shares column a with x but not with its left neighbour y
     nat = {
